@@ -461,7 +461,9 @@ def seeded():
         meta = json.load(open(mf, encoding='utf-8'))
         if meta.get('superseded'):
             continue     # no longer a breaking change on the current tree (a fix made it harmless)
-        res.append((meta['property'], 'seeded/' + meta['name'], os.path.join(os.path.dirname(mf), 'patch.diff')))
+        # (a change may break a clause which belongs to the check of another property: 'checked_by')
+        res.append((meta.get('checked_by', meta['property']), 'seeded/' + meta['name'],
+                    os.path.join(os.path.dirname(mf), 'patch.diff')))
     return res
 
 
